@@ -62,6 +62,19 @@ class _SetDefaultRewrite(ast.NodeTransformer):
     def _is_default(self, n):
         return isinstance(n, ast.Name) and n.id == "default"
 
+    def visit_Raise(self, node):
+        return node  # only the exception class is kept by the translation; its message may quote `default`
+
+    def visit_Name(self, node):
+        # the translated function sees the KIND of the default (0/1/2), so `default` may only be used in the three
+        # ways that are rewritten here; `if not default`, `default == 0`, `len(default)` ... would be taken for
+        # arithmetic on the kind
+        if node.id == "default":
+            raise self.P.Untranslatable("%s:%d: set_default() uses `default` other than in `default is None`, "
+                                        "`isinstance(default, list)`, `default = []`, `self._default = default`"
+                                        % (self.rel, node.lineno))
+        return node
+
     def visit_Compare(self, node):
         if (len(node.ops) == 1 and isinstance(node.ops[0], (ast.Is, ast.IsNot)) and self._is_default(node.left)
                 and isinstance(node.comparators[0], ast.Constant) and node.comparators[0].value is None):
@@ -113,6 +126,10 @@ def generate(api):
 
     def do_parse(tree, rel, cls, cmap, prefix):
         fn = copy.deepcopy(P.find_function(tree, cls, "parse", rel))
+        if [a.arg for a in fn.args.args] != ["self", "value"]:
+            raise P.Untranslatable("%s:%d: %s.parse(self, value) expected" % (rel, fn.lineno, cls))
+        for k in KINDS:
+            P.imported_as(tree, k, ("clikit.utils.string",), rel)
         rw = _ParseRewrite(P, rel)
         fn = ast.fix_missing_locations(rw.visit(fn))
         if rw.nullable_expr is None or rw.seen != set(KINDS):
@@ -130,13 +147,29 @@ def generate(api):
 
     def do_set_default(tree, rel, cls, cmap, prefix, calls):
         fn = copy.deepcopy(P.find_function(tree, cls, "set_default", rel))
+        if [a.arg for a in fn.args.args] != ["self", "default"]:
+            raise P.Untranslatable("%s:%d: %s.set_default(self, default) expected" % (rel, fn.lineno, cls))
         rw = _SetDefaultRewrite(P, rel)
         fn = ast.fix_missing_locations(rw.visit(fn))
         if rw.stored != 1:
             raise P.Untranslatable("%s: %s.set_default does not store the default exactly once" % (rel, cls))
+
+        # the store became a `return`: it must be the last thing the function does on its path
+        def tail(stmts, is_tail):
+            for i, st in enumerate(stmts):
+                last = is_tail and i == len(stmts) - 1
+                if isinstance(st, ast.Return) and not last:
+                    raise P.Untranslatable("%s:%d: %s.set_default goes on after `self._default = default`"
+                                           % (rel, st.lineno, cls))
+                if isinstance(st, ast.If):
+                    tail(st.body, last)
+                    tail(st.orelse, last)
+        if any(isinstance(n, ast.Return) and n.value is None for n in ast.walk(fn)):
+            raise P.Untranslatable("%s: %s.set_default returns early" % (rel, cls))
+        tail(fn.body, True)
         spec = P.FnSpec(prefix + "SetDefaultKind", [("default", "default", "nat")], "except_nat",
                         calls={py: (lean, ["flags"], "bool") for py, lean in calls.items()})
-        t = P.Translator(rel, cmap, spec)
+        t = P.Translator(rel, cmap, spec, cls=cls)
         out.append("-- %s  %s.set_default (line %d) over default kinds (0 None, 1 non-list, 2 list)\n"
                    % (rel, cls, fn.lineno)
                    + fix_sig(t.function(fn), prefix + "SetDefaultKind", "(flags : Nat)"))
